@@ -68,18 +68,31 @@ RULE_SCHED = (
 @plan("C02")
 def c02(tier, seed):
     return dict(
-        jobs=sched_jobs(tier, seed, gen=dict(nmax=9, mc_max=4), selections=True),
-        level="exploration", rule=RULE_SCHED, assumptions=ASSUME_COMMON,
-        required_reach=["c02_dep_edges", "c02_value_checks", "XENTER", "FENTER"], parallel=8 if tier == "quick" else 16,
+        jobs=sched_jobs(tier, seed, gen=dict(nmax=9, mc_max=4), selections=True)
+        + diff_jobs("C02", tier, seed, dict(flags=0.2, nest=0.3, nest_flag=0.0, share_fns=0.3), 2, nj_scale=0.5,
+                    only=["call_site_received_wrong_values"]),
+        level="exploration", rule=RULE_SCHED + "; plus generated programs with nested DAGs (depth 2), operators, indexing and keyword "
+        "arguments where every executed call site must receive exactly the reference's argument terms", assumptions=ASSUME_COMMON,
+        required_reach=["c02_dep_edges", "c02_value_checks", "c10_dependent_arg_checks", "XENTER", "FENTER"], parallel=8 if tier == "quick" else 16,
     )
 
 
 @plan("C03")
 def c03(tier, seed):
     return dict(
-        jobs=sched_jobs(tier, seed, gen=dict(nmax=9, mc_max=4), selections=True),
-        level="exploration", rule=RULE_SCHED, assumptions=ASSUME_COMMON,
-        required_reach=["c03_sites", "FENTER"], parallel=8 if tier == "quick" else 16,
+        jobs=sched_jobs(tier, seed, gen=dict(nmax=9, mc_max=4), selections=True)
+        + diff_jobs("C03", tier, seed, dict(flags=0.3, nest=0.3, nest_flag=0.3, share_fns=0.5), 2, nj_scale=0.5,
+                    only=["executed_functions_differ_from_plain_python", "flagged_call_ran_although_flag_falsy",
+                          "flagged_call_skipped_although_flag_truthy"] + ["call_site_entered_%d_times_expected_%d" % (a, b) for a in range(6) for b in range(2)])
+        + [dict(kind="hist11", pid="C03", n_histories=(40 if tier == "quick" else 400),
+                only=["executed_set_differs_from_model", "ran_setup_node_the_selection_does_not_need", "setup_node_ran_more_than_once_on_one_instance"],
+                **_seeds(seed + 90, k)) for k in range(2 if tier == "quick" else 8)],
+        level="exploration", rule=RULE_SCHED + "; plus generated programs with nested DAGs (depth 2), shared functions and flags where "
+        "every call site (prefixed ids predicted by the monitor) must be entered exactly as often as in the reference run; plus histories of "
+        "call / executor(sel) / setup() / setup(sel, incl. the empty list) / deepcopy on one instance where the executed set of every "
+        "operation must be the selection minus the already-set-up nodes",
+        assumptions=ASSUME_COMMON,
+        required_reach=["c03_sites", "c10_flagged_sites", "FENTER"], parallel=8 if tier == "quick" else 16,
     )
 
 
@@ -159,16 +172,16 @@ def c07(tier, seed):
         hs = [0, 1, 2, 3]
         for h in hs:
             jobs.append(dict(kind="cp", exhaustive_n=[2, 3, 4, 5], part=0, nparts=1, random_cases=40, seed=seed * 97 + h, hashseed=h,
-                             variants={"target": "one", "root": 1, "exclude": 1, "config": 1}))
+                             variants={"target": "one", "root": 1, "exclude": 1, "config": 1, "debug": 1}))
         ex = "all 1098 DAGs on 2..5 topologically numbered nodes under PYTHONHASHSEED 0..3"
     else:
         hs = list(range(16))
         for h in hs:
             jobs.append(dict(kind="cp", exhaustive_n=[2, 3, 4, 5], part=0, nparts=1, random_cases=300, seed=seed * 97 + h, hashseed=h,
-                             variants={"target": "all", "root": 1, "exclude": 1, "config": 1}))
+                             variants={"target": "all", "root": 1, "exclude": 1, "config": 1, "debug": 1}))
         for p in range(16):
             jobs.append(dict(kind="cp", exhaustive_n=[6], part=p, nparts=16, random_cases=0, seed=seed * 97 + 100 + p, hashseed=(p * 5 + 1) % 16,
-                             variants={"target": "one", "root": 1, "exclude": 1, "config": 1}))
+                             variants={"target": "one", "root": 1, "exclude": 1, "config": 1, "debug": 1}))
         ex = "all DAGs on 2..5 nodes under 16 hash seeds with every single-target executor, all 32768 DAGs on 6 nodes (one hash seed each)"
     return dict(
         jobs=jobs, level="exploration", exhaustive=True,
@@ -201,12 +214,12 @@ ASSUME_DIFF = [
 ]
 
 
-def diff_jobs(pid, tier, seed, feats, depth, scale=1.0, clauses=True):
+def diff_jobs(pid, tier, seed, feats, depth, scale=1.0, clauses=True, only=None, nj_scale=1.0):
     if tier == "quick":
-        nj, np_ = 8, int(70 * scale)
+        nj, np_ = max(1, int(8 * nj_scale)), int(70 * scale)
     else:
-        nj, np_ = 32, int(900 * scale)
-    return [dict(kind="diff", pid=pid, n_programs=np_, reps=3, feats=feats, depth=depth, clauses=clauses, **_seeds(seed, k)) for k in range(nj)]
+        nj, np_ = max(2, int(32 * nj_scale)), int(900 * scale)
+    return [dict(kind="diff", pid=pid, n_programs=np_, reps=3, feats=feats, depth=depth, clauses=clauses, only=only, **_seeds(seed + 50, k)) for k in range(nj)]
 
 
 @plan("C01")
